@@ -5,8 +5,8 @@
     replaced by [f] (kinds, role, stoich untouched); [geq] = same graph up to the insertion order of nodes / arcs;
     [iso g h] = some map injective on the nodes of g relabels g into h up to [geq]. *)
 From Coq Require Import List NArith ZArith Bool Arith Permutation.
-From SK Require Import lib.IRSortKeys lib.IRCore lib.IRSearch model.C18_Model model.C18_AttrModel proof.C18_Attr proof.C18_Order proof.C18_Spec
-  proof.C18_Graph proof.C18_Canon proof.C18_Equiv proof.C18_Label proof.C18_Aut proof.C18_Invariant proof.C18_Wf proof.C18_Count proof.C18_View proof.C18_Vf2 proof.C18_Vf2Count proof.C18_Refine proof.C18_NetBip proof.C18_Net proof.C18_NetSp proof.C18_Orbits proof.C18_OrbSound proof.C18_OrbComplete proof.C18_OrbCanon proof.C18_Maps proof.C18_Examples.
+From SK Require Import lib.IRSortKeys lib.IRCore lib.IRSearch model.C18_Model model.C18_AttrModel model.C18_WLModel model.C18_BackendModel proof.C18_Attr proof.C18_Order proof.C18_Spec
+  proof.C18_Graph proof.C18_Canon proof.C18_Equiv proof.C18_Label proof.C18_Aut proof.C18_Invariant proof.C18_Wf proof.C18_Count proof.C18_View proof.C18_Vf2 proof.C18_Vf2Count proof.C18_Refine proof.C18_NetBip proof.C18_Net proof.C18_NetSp proof.C18_Orbits proof.C18_OrbSound proof.C18_OrbComplete proof.C18_OrbCanon proof.C18_Maps proof.C18_WL proof.C18_Backend proof.C18_Examples.
 From SK Require Import lib.C18_IRValid.
 From SK Require lib.IRInst.
 Import ListNotations.
@@ -282,3 +282,59 @@ Theorem C18_attr_canon_iso : forall (g : vgraph) (t : ltab) (nk : list nsel) (ek
        find_arc (canon_graph g perm) (cid perm u) (cid perm v) = find_arc g u v).
 Proof. exact canon_isoA. Qed.
 Print Assumptions C18_attr_canon_iso.
+
+(** WLCanonicalizer (model/C18_WLModel.v: colour cells of 1-WL refinement with the options n_iter, include_in_neighbors,
+    include_out_neighbors and the attribute selections; compared with the code on every case).  The code documents its orbits as
+    approximate; the sound half holds for ALL inputs and options: a self-map of the view that is injective on the nodes, maps
+    nodes to nodes and preserves the SELECTED node attributes, adjacency in both directions (loops included) and the SELECTED
+    edge attributes ([is_autA]) preserves every WL colour. *)
+Theorem C18_wl_respects_selected_auts : forall (g : vgraph) (t : ltab) (nk : list nsel) (ek : list esel) (s : N -> N)
+    (inb outb : bool) (n_iter : nat),
+  wf g ->
+  inj_on s (node_ids g) -> (forall v, In v (node_ids g) -> In (s v) (node_ids g)) ->
+  (forall v, In v (node_ids g) -> nkey g t nk (s v) = nkey g t nk v) ->
+  (forall u v, In u (node_ids g) -> In v (node_ids g) ->
+     option_map (ekey ek) (find_arc g (s u) (s v)) = option_map (ekey ek) (find_arc g u v)) ->
+  forall v, In v (node_ids g) ->
+    col_get (wl_colors g t nk ek inb outb n_iter) (s v) = col_get (wl_colors g t nk ek inb outb n_iter) v.
+Proof. exact (fun g t nk ek s inb outb n Hw H1 H2 H3 H4 => wl_colors_aut g t nk ek s Hw (conj H1 (conj H2 (conj H3 H4))) inb outb n). Qed.
+Print Assumptions C18_wl_respects_selected_auts.
+
+(** With the default selection: the WL cells never split a class of nodes exchangeable by a structure-preserving self-map
+    (the same [is_aut] that C18_aut_count / C18_orbits are about): a node and its image lie in the same reported cell. *)
+Theorem C18_wl_never_splits_orbit : forall (g : vgraph) (s : N -> N) (inb outb : bool) (n_iter : nat),
+  wf g -> is_aut g s ->
+  forall c, In c (wl_cells g (wl_colors g [] [NKind] [ERole; EStoich] inb outb n_iter)) ->
+  forall v, In v (node_ids g) -> (In v c <-> In (s v) c).
+Proof. exact wl_never_splits_orbit. Qed.
+Print Assumptions C18_wl_never_splits_orbit.
+
+(** The reported WL cells are a partition of the coloured nodes: every node lies in a cell and two cells sharing a node are
+    the same cell. *)
+Theorem C18_wl_cells_partition : forall (g : vgraph) (c : coloring),
+  (forall v, In v (node_ids g) -> In v (map fst c) -> exists cell, In cell (wl_cells g c) /\ In v cell) /\
+  (forall c1 c2 v, In c1 (wl_cells g c) -> In c2 (wl_cells g c) -> In v c1 -> In v c2 -> c1 = c2).
+Proof. exact (fun g c => conj (wl_cells_cover g c) (wl_cells_disjoint g c)). Qed.
+Print Assumptions C18_wl_cells_partition.
+
+(** State that survives between calls: _CRNGraphBackend caches the graph view on the analyzer together with the hypergraph's
+    _version (model/C18_BackendModel.v; the served views of kept analyzers are compared with the code in every history case).
+    A script on ONE hypergraph object -- mutating method calls ([EMethod n' k]: network value n' afterwards, version bumped 1 + k
+    times), analyzers created at any time with any (include_rule, include_stoich) ([SNew]), reads of any analyzer at any time
+    ([SRead i]) -- serves at every read exactly the view that an analyzer created afresh at that moment would build:
+    [spec_hist] evaluates [view] on the current network value at every read. *)
+Theorem C18_backend_serves_current : forall (n0 : net) (v0 : N) (steps : list hstep),
+  (forall e, In (SEdit e) steps -> exists n' k, e = EMethod n' k) ->
+  run_hist (HG n0 v0, []) steps = spec_hist n0 [] steps.
+Proof. exact backend_history_current'. Qed.
+Print Assumptions C18_backend_serves_current.
+
+(** The premise is needed (code kept as it is; documented: "rebuilt after the hypergraph was edited through its methods"):
+    an edit behind the hypergraph's back ([ESilent]: RXNSide.__setitem__, edge.reactants[s] = c) does not bump the version and a
+    kept analyzer goes on serving the old view (witness: 2A >> B analysed, coefficient set to 1, analyzer read again).  Not a
+    clause of the property (the canonical graph still belongs to the view it was computed from); the correspondence predicts the
+    stale answers exactly. *)
+Theorem C18_backend_silent_edit_refuted : exists (n0 : net) (steps : list hstep),
+  run_hist (HG n0 0, []) steps <> spec_hist n0 [] steps.
+Proof. exact backend_silent_edit_refuted. Qed.
+Print Assumptions C18_backend_silent_edit_refuted.
